@@ -190,7 +190,10 @@ pub fn draw_steps(rng: &mut Rng, kind: ReprKind, n: usize, len: usize) -> Vec<St
     for i in 0..len {
         let bad = rng.below(1000) < reject_rate || (i == len - 1 && len >= 3);
         let (u, v) = if bad {
-            let far = *rng.pick(&[n, n + 1, n + 2, FAR, usize::MAX]);
+            // just outside, far outside, and where index arithmetic with the order leaves the machine word:
+            // floor(MAX / n) is the largest id whose product with the order still fits
+            let q = usize::MAX / n.max(1);
+            let far = *rng.pick(&[n, n + 1, n + 2, FAR, usize::MAX, n, n + 1, usize::MAX, q, q.saturating_add(1), q - 1, 1 << 63, 1 << 32]);
             match rng.below(4) {
                 0 => {
                     let x = rng.below(n.max(1));
@@ -295,6 +298,10 @@ fn probe_ids(m: &WDg, rng_seed: u64) -> Vec<usize> {
     ids.push(max.saturating_add(1));
     ids.push(max.saturating_add(2));
     ids.push(usize::MAX);
+    // ids whose product with the order is at the edge of the machine word
+    let q = usize::MAX / m.v.len().max(1);
+    ids.push(q);
+    ids.push(q.saturating_add(1));
     ids.sort_unstable();
     ids.dedup();
     ids
